@@ -59,3 +59,23 @@ Check C03_entity_lookup_total : forall cfg s h, Inv s -> key32 h ->
   | RPanic p => p = PDebug /\ debug cfg = true /\ (N.of_nat (cap s) <= hslot h)%N /\ 0 < len s
   | RUB => False
   end.
+
+(* ---------------------------------------------------------------- run level *)
+From Gecs Require Import Query World Borrow Run WorldInv.
+
+(** Any 32-bit raw pair, with any static typing (dynamic, checked, unchecked conversion, or typed for
+    an archetype of another id), through any keyed path (destroy, every lookup path, to_direct, every
+    write path, find queries), at world or archetype level, on any reachable state: never undefined
+    behaviour, and the state stays invariant. *)
+Theorem C03_any_key_any_path_never_ub : forall cfg d qs st l k t key ver, wf_decl d -> RInv d st ->
+  (key < 2^32)%N -> (ver < 2^32)%N ->
+  Forall (fun o => match step cfg d qs st o with Some (st', _) => RInv d st' | None => False end)
+    [ODestroy l k t (RRaw key ver); OProbe l k t (RRaw key ver); OToDirect l k t (RRaw key ver)].
+Proof.
+  intros cfg d qs st l k t key ver Hd HR Hk Hv.
+  repeat constructor; apply step_inv; try done; split; done.
+Qed.
+
+Theorem C03_no_lookup_path_is_ub : forall cfg typed k s h, Inv s -> hpair32 h ->
+  (exists x, probe_storage_world cfg typed k s h = ROk x) /\ (exists x, probe_storage_arch cfg k s h = ROk x).
+Proof. intros. split; [by apply probe_world_ok|by apply probe_arch_ok]. Qed.
